@@ -31,15 +31,14 @@ LEVEL_TEXT = ("Two parts. (1) PROOF, for all legal histories of any length (Lean
               "(skip_sound_registration), hence for strictly convex shapes in general position its old route is valid "
               "for the new scene (skip_sound_leg, skip_sound_route_valid, with the invariant covered_after_routing / "
               "covered_preserved); flags stick (flag_persists, endpoint_change_flags, orthogonal_always_rerouted); no-op "
-              "(noop_flags_nothing, settings_only_transaction_keeps_flags); for removal: when start and end of the route "
-              "lie on the same side of a side's line the as-coded point minimises the detour over that side for every "
-              "norm-like length over any ordered field (removal_estimate_min_horizontal/_vertical) and the test flags "
-              "whenever a path through a point of that side would be shorter (removal_flag_complete, "
-              "removal_complete_shorter_path; removal_estimate_repaired_min: with |b|, |d| the condition is not "
-              "needed); new_scene_obstacle_cases, txnOf_spec, touched_or_blocked_edge_flags, skip_sound_route_valid_rect and skip_sound_scene (assembled on runPasses; conclusion = RouteValid of C03), contains_incremental_eq_scratch (Router::contains maintained by the three loops has its from-scratch meaning); without "
-              "that condition the estimate is only a heuristic - removal_witness_flagged is a closed scene "
-              "in which a strictly shorter obstacle-free route opens and nothing is flagged (replayed against the C++: "
-              "harness --only 1000002, a genuine defect w.r.t. the property text); estLess_sound: the driver's three-valued "
+              "(noop_flags_nothing, settings_only_transaction_keeps_flags); for removal (as repaired in /repo 852e306: distances |b|, |d| from the side's line): the detour point minimises the detour over that side for every "
+              "norm-like length over any ordered field (removal_estimate_min_horizontal/_vertical, removal_estimate_repaired_min) and the test "
+              "flags whenever a path through a point of that side would be shorter, with no side condition (removal_flag_complete, "
+              "removal_complete_shorter_path); removal_witness_flagged: the closed scene on which the code as found kept a longer route "
+              "(signed offsets: x was not the crossing point when the line separates start and end; replayed against the C++ by harness "
+              "--only 1000002..1000007, repaired) is now flagged; new_scene_obstacle_cases, txnOf_spec, touched_or_blocked_edge_flags, "
+              "skip_sound_route_valid_rect and skip_sound_scene (assembled on runPasses; conclusion = RouteValid of C03), contains_incremental_eq_scratch; "
+              "estLess_sound: the driver's three-valued "
               "comparison never contradicts an exact one. TIE per processed transaction of every history: the model's "
               "rerouted set = ConnRef::needsRepaint() exactly; with the guarded hook (ADAPTAGRAMS_VERIF_REROUTE_HOOK) also "
               "m_needs_reroute_flag, m_false_path, m_route_dist (within 1e-9 of the route length) and "
